@@ -470,6 +470,36 @@ func (w *World) Build(parent *MBlock, o BlockOpts) *MBlock {
 	if bp.cbMutate != nil {
 		bp.cbMutate(cb)
 	}
+	if bp.cbClone != nil {
+		// BIP30 scenarios: an exact copy of an earlier coinbase of this branch
+		cb = bp.cbClone
+	}
+	if bp.sigopTarget > 0 {
+		// pad the legacy signature-operation count of the block to the target
+		others := 0
+		count := func(tx *wire.MsgTx) {
+			for _, o := range tx.TxOut {
+				if k, _ := w.classify(o.PkScript); k == KP2PKH {
+					others++
+				}
+			}
+		}
+		count(cb)
+		for _, t := range bp.txs {
+			count(t.Msg)
+		}
+		need := bp.sigopTarget - others
+		if need > 0 {
+			pk := make([]byte, 0, need/20+20)
+			for i := 0; i < need/20; i++ {
+				pk = append(pk, txscript.OP_CHECKMULTISIG)
+			}
+			for i := 0; i < need%20; i++ {
+				pk = append(pk, txscript.OP_CHECKSIG)
+			}
+			cb.AddTxOut(&wire.TxOut{Value: 0, PkScript: pk})
+		}
+	}
 	cbm := &MTx{Msg: cb, Coinbase: true}
 	all := append([]*MTx{cbm}, bp.txs...)
 	if bp.reorder != nil {
@@ -484,6 +514,11 @@ func (w *World) Build(parent *MBlock, o BlockOpts) *MBlock {
 		}
 	}
 	commitMode := bp.commitMode
+	if bp.cbClone != nil || bp.sizeTarget > 0 {
+		// (a witness commitment would add witness bytes: the size cases are
+		// about the size without witness data and the weight it implies)
+		commitMode = "none"
+	}
 	if commitMode == "" {
 		if needCommit || (bp.segwit && w.C.Bool(150, "commit-anyway")) {
 			commitMode = "ok"
@@ -514,6 +549,22 @@ func (w *World) Build(parent *MBlock, o BlockOpts) *MBlock {
 		}
 		pk := append([]byte{txscript.OP_RETURN, 0x24, 0xaa, 0x21, 0xa9, 0xed}, c[:]...)
 		cb.AddTxOut(&wire.TxOut{Value: 0, PkScript: pk})
+	}
+	if bp.sizeTarget > 0 {
+		// pad the block's serialized size without witness data to the target
+		// with an unspendable coinbase output (OP_RETURN followed by OP_0s)
+		cur := 80 + wire.VarIntSerializeSize(uint64(len(all)))
+		for _, t := range all {
+			cur += t.Msg.SerializeSizeStripped()
+		}
+		for L := bp.sizeTarget - cur - 8 - 5; L <= bp.sizeTarget-cur-8-1 && L > 0; L++ {
+			if cur+8+wire.VarIntSerializeSize(uint64(L))+L == bp.sizeTarget {
+				pk := make([]byte, L)
+				pk[0] = txscript.OP_RETURN
+				cb.AddTxOut(&wire.TxOut{Value: 0, PkScript: pk})
+				break
+			}
+		}
 	}
 	cbm.Hash = cb.TxHash()
 
@@ -683,6 +734,9 @@ type blockPlan struct {
 	created map[wire.OutPoint]*utxoRec // created by txs of this block
 
 	flag           string // set by a header mutation that found its context
+	sigopTarget    int    // pad legacy sigops of the block to this number
+	sizeTarget     int    // pad the stripped block size to this number of bytes
+	cbClone        *wire.MsgTx
 	cbDelta        int64
 	cbExact        bool
 	cbHeightScript []byte
